@@ -354,9 +354,18 @@ func (s *IndexedStore) list(tx ReadOperator, index, pattern string, offset, limi
 	if limit >= 0 {
 		matches = DoListFunc(ids, match, offset, limit)
 	} else {
-		matches = make([]string, len(ids))
+		// No limit is enforced, the pattern and offset still apply.
+		matches = make([]string, 0, len(ids))
+		skipped := 0
 		for i := range ids {
-			matches[i] = string(ids[i].Value)
+			if !match(ids[i].Value) {
+				continue
+			}
+			if skipped < offset {
+				skipped++
+				continue
+			}
+			matches = append(matches, string(ids[i].Value))
 		}
 	}
 
